@@ -150,6 +150,10 @@ def closure_leg(c, wd):
     cases += [('line_capture', {'stage': 'line_capture'}, []), ('line_capture+watches', {'stage': 'line_capture'},
                                                                     ['[out, first]', 'pair'])]
     cases += [('method_capture', {'stage': 'method_capture', 'method_name': 'held'}, ['shared'])]
+    # a snapshot that also logs: the fields of the message are collected into the SAME table under the same identities
+    cases += [('snapshot+log', {'log_msg': 'a {first} b {shared} c {pair}'}, []),
+              ('snapshot+log+watches', {'log_msg': '{out} and {second}'}, ['shared', '[first, out]']),
+              ('snapshot+log-fresh', {'log_msg': '{[second, first]} {len(shared)} {first}'}, ['second'])]
     # the failing member is reachable through the watch only (a module global), not from the frame
     cases += [('global-watches', {}, ws) for ws in (['[shared, GB]', 'shared', 'first'], ['[first, GB2, GB]', 'first', 'shared'],
                                                     ["{'a': second, 'b': GB}", '[second]', 'second'],
